@@ -24,11 +24,12 @@ class Src:
 
 
 class SGen:
-    def __init__(self, rng, p_subq=0.3, max_depth=2, p_alias=0.35, p_defect=0.0):
+    def __init__(self, rng, p_subq=0.3, max_depth=2, p_alias=0.35, p_defect=0.0, p_with=0.2):
         self.r = rng
         self.p_subq = p_subq
         self.max_depth = max_depth
         self.p_alias = p_alias
+        self.p_with = p_with
         self.p_defect = p_defect          # rate of the shapes behind the known findings (0 in the clean stream)
 
     # ------------------------------------------------------------------ leaves
@@ -255,7 +256,7 @@ class SGen:
         srcs = [self.source(depth, used) for _ in range(nfrom)]
         q = {"k": "sel", "cls": CLS, "from": [s.spec for s in srcs], "joins": []}
         withs = []
-        if depth == 0 and self.r.random() < 0.2:
+        if depth == 0 and self.r.random() < self.p_with:
             w, wcols = self.select(depth + 1, small=True, named=True)
             name = self.r.choice(["cte", "w1"])
             withs.append([name, w])
